@@ -12,8 +12,9 @@ Definition ebound := option Q.         (* None = infinite (np.inf / -np.inf) *)
 
 Definition Qltb (a b : Q) : bool := negb (Qle_bool b a).
 
+(* Qred only normalises the representation (Qred q == q); it keeps vm_compute fast on doubles *)
 Fixpoint dot (a b : vec) : Q :=
-  match a, b with x :: r, y :: s => x * y + dot r s | _, _ => 0 end.
+  match a, b with x :: r, y :: s => Qred (x * y + dot r s) | _, _ => 0 end.
 Definition mulv (m : mat) (x : vec) : vec := map (fun r => dot r x) m.
 Fixpoint axpy (a : Q) (d x : vec) : vec :=       (* x + a * d *)
   match d, x with u :: r, v :: s => (v + a * u) :: axpy a r s | _, _ => [] end.
@@ -47,7 +48,7 @@ Fixpoint alphas_of (btol ftol : Q) (bnd : list ebound) (at_ dir : vec) (skip : l
       let sk := match skip with s :: _ => s | [] => false end in
       let rest := alphas_of btol ftol bs as_ ds (tl skip) in
       if Qltb ftol (Qabs d) && negb sk then
-        match b with Some q => (((1 - btol) * q - a) / d) :: rest | None => rest end
+        match b with Some q => Qred (((1 - btol) * q - a) / d) :: rest | None => rest end
       else rest
   | _, _, _ => []
   end.
@@ -108,7 +109,7 @@ Definition stuck (S : sampler) (rng : Q * Q) (delta : vec) : bool :=
    None = RuntimeError (tries > MAX_TRIES) or the scripted draws ran out.                    *)
 Fixpoint step_from (fuel : nat) (S : sampler) (x delta : vec) (theta : Q) (retries : list (nat * Q)) : option vec :=
   let rng := alpha_range S x delta in
-  let alpha := fst rng + theta * (snd rng - fst rng) in
+  let alpha := Qred (fst rng + theta * (snd rng - fst rng)) in
   let p := axpy alpha delta x in
   if negb (bounds_ok S p) || stuck S rng delta then
     match fuel, retries with
